@@ -86,6 +86,13 @@ def place_expr(crate, body, p, env, depth):
             if sd and sd[2] == 'assign' and sd[3]['rv']['k'] == 'bin' and sd[3]['rv']['op'].endswith('WithOverflow'):
                 rv = sd[3]['rv']
                 return ('bin', rv['op'][:-len('WithOverflow')], expr(crate, body, rv['a'], env, depth - 1), expr(crate, body, rv['b'], env, depth - 1))
+        # scalar replacement: a field of an aggregate built in this body (also behind `?` and copies, engine O)
+        if not (1 <= l <= body.arg_count) and pr[0] != '*' and hasattr(body, '_peel'):
+            q = body._peel(p)
+            if q is not None:
+                if q.get('k') in ('const', 'copy', 'move'):
+                    return expr(crate, body, q, env, depth - 1)
+                return place_expr(crate, body, q, env, depth - 1)
         base = place_expr(crate, body, {'l': l, 'p': None}, env, depth - 1)
         rest = [n for n in names if n != ('*',)]
         return _apply_proj(base, rest)
@@ -95,7 +102,10 @@ def place_expr(crate, body, p, env, depth):
         return ('arg', body.local_name(l) or '_%d' % l)
     defs = [d for d in body.defs().get(l, []) if d[2] != 'partial']
     if len(defs) != 1:
-        return ('phi', body.local_name(l) or '_%d' % l, len(defs))
+        sd_ = body.single_def_at(l, p.get('@'), p.get('@i')) if hasattr(body, 'single_def_at') else None
+        if sd_ is None:
+            return ('phi', body.local_name(l) or '_%d' % l, len(defs))
+        defs = [sd_]
     b, i, kind, payload = defs[0]
     if kind == 'yield':
         return ('unknown', 'resume')
